@@ -63,6 +63,11 @@ namespace
                 std::string body(n, char('a' + idx));
                 w.send(Http::Code::Ok, body);
             }
+            else if (r.rfind("/busy/", 0) == 0)
+            {
+                net::sleep_ms(atoi(r.c_str() + 6)); // keeps the (single) worker away from its sockets
+                w.send(Http::Code::Ok, r);
+            }
             else
                 w.send(Http::Code::Ok, r);
         }
@@ -130,6 +135,15 @@ namespace verif
             rep.nontrivial_case(fnv1a(cfg + std::to_string(tagn)));
         rep.sample(cfg);
 
+        // In every other case (by the first response's size, no choice consumed) the release coincides with
+        // a new request on the stalled connection itself while the worker is held in a slow handler by
+        // another connection: "readable" and "writable" for A then reach the worker in one wake-up.
+        bool coincide = (sizes[0] / 1024) % 2 == 0;
+        if (coincide)
+        {
+            rep.label("release-coincides-with-a-new-request-on-A");
+            cfg += "; at the release A also sends a new request while the worker is busy for 150 ms";
+        }
         g_pol.target_fd        = -1;
         g_pol.attempts_blocked = 0;
         g_pol.saw_eagain       = false;
@@ -160,6 +174,21 @@ namespace verif
                 if (fd >= 0)
                     ::close(fd);
             });
+        // ---- C: keeps the worker busy around the release (only in "coincide" cases) ---------------------
+        std::string c_err;
+        if (coincide)
+            th.emplace_back([&c_err, t0, stall] {
+                int fd = net::connect_loopback(g_server.port);
+                double wait = t0 + stall - 0.07 - net::now_s();
+                if (wait > 0)
+                    net::sleep_ms(int(wait * 1000));
+                std::string carry, err;
+                net::Message msg;
+                if (fd < 0 || !net::send_all(fd, "GET /busy/150 HTTP/1.1\r\nHost: x\r\n\r\n") || !net::read_message(fd, carry, true, msg, 6000, err) || msg.status != 200)
+                    c_err = "the connection that keeps the worker busy was not answered: " + err;
+                if (fd >= 0)
+                    ::close(fd);
+            });
         // ---- A -----------------------------------------------------------------------------------
         int a = net::connect_loopback(g_server.port, 4096);
         std::string a_err;
@@ -177,6 +206,8 @@ namespace verif
         long attempts = g_pol.attempts_blocked.load();
         bool blocked  = g_pol.saw_eagain.load();
         g_pol.released = true;
+        if (coincide)
+            net::send_all(a, "GET /after-the-stall HTTP/1.1\r\nHost: x\r\n\r\n");
         // resume reading: everything pending must arrive, in order
         std::string carry;
         for (unsigned i = 0; i < k && a_err.empty(); ++i)
@@ -188,9 +219,20 @@ namespace verif
             else if (msg.status != 200 || msg.body.size() != sizes[i] || msg.body.find_first_not_of(char('a' + i)) != std::string::npos)
                 a_err = "response " + std::to_string(i) + " is not the one asked for (status " + std::to_string(msg.status) + ", " + std::to_string(msg.body.size()) + " bytes)";
         }
+        if (coincide && a_err.empty())
+        {
+            net::Message msg;
+            std::string err;
+            if (!net::read_message(a, carry, true, msg, 8000, err))
+                a_err = "the answer to the request A sent when it resumed reading: " + err;
+            else if (msg.status != 200 || msg.body != "/after-the-stall")
+                a_err = "the answer to the request A sent when it resumed reading is wrong (status " + std::to_string(msg.status) + ")";
+        }
         ::close(a);
         for (auto& t : th)
             t.join();
+        if (a_err.empty() && !c_err.empty())
+            a_err = c_err;
         ++rep.subchecks;
         rep.label(blocked ? "A-really-blocked" : "A-never-blocked");
 
